@@ -1,6 +1,7 @@
 package play
 
 import (
+	"math"
 	"github.com/berquerant/crd/note"
 	"github.com/berquerant/crd/op"
 	"github.com/berquerant/crd/util"
@@ -24,7 +25,7 @@ func VerifC01WriteSequence() {
 	type expect struct {
 		kind           int
 		keys           []MIDINoteNumber
-		value          float64
+		vnum, vden     int64 // the exact length in quarter notes
 		vel            uint8
 		bpm            int
 		kl, ka         int
@@ -36,16 +37,16 @@ func VerifC01WriteSequence() {
 	symbols := []string{"", "m7", "sus4"}
 	for i := 0; i < n; i++ {
 		var in op.Instance
-		// one or two duration fractions; the instance's length is their sum, handed over once
-		fr := [][2]uint{{1, 1}, {1, 2}, {3, 2}, {1, 7}, {2, 3}}
-		f1 := fr[(i*2)%5]
+		// one or two duration fractions; the instance's length is their exact sum, handed
+		// over once. The pairs have denominators that do not divide one another.
+		fr := [][2][2]uint{{{1, 2}, {1, 3}}, {{2, 3}, {1, 7}}, {{3, 2}, {1, 1}}}[i%3]
+		f1 := fr[0]
 		in.Values = []note.Value{{Rat: util.NewRat(f1[0], f1[1])}}
-		var value float64
-		value += float64(f1[0]) / float64(f1[1])
+		vnum, vden := int64(f1[0]), int64(f1[1])
 		if vf.NondetIntRange("fractions", 1, 2) == 2 {
-			f2 := fr[(i*2+3)%5]
+			f2 := fr[1]
 			in.Values = append(in.Values, note.Value{Rat: util.NewRat(f2[0], f2[1])})
-			value += float64(f2[0]) / float64(f2[1])
+			vnum, vden = vnum*int64(f2[1])+int64(f2[0])*vden, vden*int64(f2[1])
 		}
 		hasBPM := vf.NondetIntRange("hasBPM", 0, 1) == 1
 		hasKey := vf.NondetIntRange("hasKey", 0, 1) == 1
@@ -109,9 +110,9 @@ func VerifC01WriteSequence() {
 			for _, iv := range [][]int{{0, 4, 7}, {0, 3, 7, 10}, {0, 5, 7}}[si] {
 				keys = append(keys, MIDINoteNumber(root+iv))
 			}
-			want = append(want, expect{kind: vcNote, keys: keys, value: value, vel: vel})
+			want = append(want, expect{kind: vcNote, keys: keys, vnum: vnum, vden: vden, vel: vel})
 		} else {
-			want = append(want, expect{kind: vcRest, value: value})
+			want = append(want, expect{kind: vcRest, vnum: vnum, vden: vden})
 		}
 		insts[i] = in
 	}
@@ -137,10 +138,10 @@ func VerifC01WriteSequence() {
 					w8[j] = uint8(x)
 				}
 				verifSamePitches("chord-sounds-in-the-key-in-force", c.keys, w8)
-				vf.Assert("chord-length-as-written", c.value == e.value)
+				vf.Assert("chord-length-as-written", verifLengthOK(c.value, e.vnum, e.vden))
 				vf.Assert("chord-uses-the-dynamic-in-force", c.vel == e.vel)
 			case vcRest:
-				vf.Assert("rest-length-as-written", c.value == e.value)
+				vf.Assert("rest-length-as-written", verifLengthOK(c.value, e.vnum, e.vden))
 			case vcTempo:
 				vf.Assert("tempo-value", c.bpm == e.bpm)
 				forceBPM = e.bpm
@@ -170,4 +171,16 @@ func VerifC01WriteSequence() {
 	}
 	vf.Assert("exactly-the-expected-calls", wi == len(want))
 	vf.Reach("end")
+}
+
+// verifLengthOK: the value handed to the MIDI writer stands for the written length: at the
+// file's 960 ticks per quarter it rounds to a tick count within half a tick of the exact
+// rational 960*num/den (how the sum is computed — float by float or exactly — is not prescribed).
+func verifLengthOK(value float64, num, den int64) bool {
+	t := int64(math.Round(960 * value))
+	d := 960*num - t*den
+	if d < 0 {
+		d = -d
+	}
+	return 2*d <= den
 }
